@@ -242,6 +242,102 @@ def _eval_rgbimg(case):
                 tags=dict(kind='rgbimg', dtype=case.get('dtype', 'uint8'), layout=case.get('layout', 'C'), out=case.get('out', '-')))
 
 
+DT_IN = ['uint8', 'uint16', 'uint32', 'uint64', 'int16', 'int32', 'int64', 'float32', 'float64']
+DT_OUT = ['uint8', 'uint16', 'uint32', 'int8', 'int16', 'int32', 'int64', 'float16', 'float32', 'float64', 'pyfloat']
+
+
+def _eval_dtypes(case):
+    """dtype handling of the colour conversions (every input dtype x every `dtype=` request):
+    (1) an integer image is converted to double first: every conversion of it is bit-identical to the conversion of
+        `img.astype(float64)` (also integer XYZ images for xyz2lab / xyz2rgb);
+    (2) a `dtype=` request returns that dtype and is exactly `astype(dtype)` of the float64 result
+        (rgb2xyz, rgb2lab, rgb2grey, xyz2lab, xyz2rgb); xyz2rgb(rgb2xyz(c), dtype=integer) returns c or c - 1
+        (truncation of a value within 0.0764 of c), a float dtype returns c within the round-trip tolerance;
+    (3) the Lean model fed with the *integers* (it converts them itself, `Float.ofInt`) agrees with the real doubles
+        (1e-12 / 1e-9) and, for integer requests, with the real integers wherever the model value is not within 1e-6
+        of an integer (libm's pow is only compared at 1e-9);
+    (4) `rgb2gray` is `rgb2grey`."""
+    c = _colors()
+    vals = [int(v) for v in case['rgb']]
+    n = len(vals) // 3
+    A = np.array(vals, dtype=np.int64).reshape(n, 1, 3).astype(case['dtype'])
+    Af = A.astype(np.float64)
+    before = A.copy()
+    out = case.get('out')
+    odt = None if out is None else (float if out == 'pyfloat' else np.dtype(out))
+    ndt = None if out is None else np.dtype(np.float64 if out == 'pyfloat' else out)
+    f = []
+    with warnings.catch_warnings(), np.errstate(all='ignore'):
+        warnings.simplefilter('ignore')
+        if c.rgb2gray is not c.rgb2grey:
+            f.append(dict(kind='property', key='rgb2gray:alias', detail={}))
+        res = {}
+        for fn in ('rgb2xyz', 'rgb2lab', 'rgb2grey', 'rgb2sepia'):
+            g = getattr(c, fn)
+            res[fn] = np.asarray(g(A))
+            ref = np.asarray(g(Af))
+            if A.dtype.kind in 'iu' and not (res[fn].dtype == ref.dtype and np.array_equal(res[fn], ref)):
+                f.append(dict(kind='property', key=f'{fn}:integer-input', detail=dict(dtype=case['dtype'])))
+        xyz = res['rgb2xyz'].astype(np.float64)
+        res['xyz2rgb'] = np.asarray(c.xyz2rgb(xyz))
+        res['xyz2lab'] = np.asarray(c.xyz2lab(xyz))
+        # integer XYZ images (0, 1, 2 — only the dtype handling matters)
+        Xi = (np.array(vals, dtype=np.int64).reshape(n, 1, 3) % 3).astype(case['dtype'] if A.dtype.kind in 'iu' else 'int32')
+        for fn in ('xyz2lab', 'xyz2rgb'):
+            a1, a2 = np.asarray(getattr(c, fn)(Xi)), np.asarray(getattr(c, fn)(Xi.astype(np.float64)))
+            if not (a1.dtype == a2.dtype and np.array_equal(a1, a2, equal_nan=True)):
+                f.append(dict(kind='property', key=f'{fn}:integer-input', detail=dict(dtype=str(Xi.dtype))))
+        if ndt is not None:
+            for fn, src in (('rgb2xyz', A), ('rgb2lab', A), ('rgb2grey', A), ('xyz2lab', xyz), ('xyz2rgb', xyz)):
+                o = np.asarray(getattr(c, fn)(src, dtype=odt))
+                if o.dtype != ndt:
+                    f.append(dict(kind='property', key=f'{fn}:dtype', detail=dict(requested=out, got=str(o.dtype))))
+                    continue
+                want = res[fn].astype(ndt)
+                if fn == 'xyz2rgb' and ndt != np.int8:      # (int8 cannot hold 0..255: only `astype` is compared)
+                    T = np.array(vals, dtype=np.float64).reshape(o.shape)
+                    of = o.astype(np.float64)
+                    if ndt.kind in 'iu':
+                        ok = bool(np.all((of == T) | (of == T - 1)))
+                    else:
+                        ok = bool(np.all(np.abs(of - T) <= RT_TOL + (0.13 if ndt == np.float16 else 0.0)))
+                    if not ok:
+                        j = int(np.argmax(np.abs(of - T).ravel()))
+                        f.append(dict(kind='property', key='xyz2rgb:roundtrip', detail=dict(
+                            dtype=out, rgb=T.reshape(-1, 3)[j // 3].tolist(), back=of.reshape(-1, 3)[j // 3].tolist())))
+                        continue
+                if not np.array_equal(o, want, equal_nan=True):
+                    f.append(dict(kind='model', key=f'{fn}:dtype-is-not-astype', detail=dict(requested=out)))
+    if not (np.array_equal(before, A) and before.dtype == A.dtype):
+        f.append(dict(kind='property', key='colors:input-modified', detail={}))
+    # (3) the Lean model on the integers
+    skipped = 0
+    if not f and A.dtype.kind in 'iu':
+        name = cs.DT_NAME.get(ndt.name, 'i64') if (ndt is not None and ndt.kind in 'iu') else 'i64'
+        drv = core.drive([f'c20 kind=rgbint rgb={core.fmt_ints(vals)} out={name}'])[0]
+        for key, fn, tol in (('xyz', 'rgb2xyz', TOL['xyz']), ('lab', 'rgb2lab', TOL['lab']), ('back', 'xyz2rgb', TOL['back']),
+                             ('grey', 'rgb2grey', TOL['grey'])):
+            m = core.floats(drv[key])
+            e, i = _maxerr(res[fn], m)
+            if e > tol:
+                f.append(dict(kind='model', key=f'{fn}:model-integer-input', detail=dict(err=e, index=i)))
+            elif ndt is not None and ndt.kind in 'iu' and (ndt.kind == 'i' or fn != 'rgb2lab') and \
+                    (ndt != np.int8 or fn in ('rgb2xyz', 'rgb2lab')):      # only values inside the dtype's range
+                src = A if fn != 'xyz2rgb' else xyz
+                with warnings.catch_warnings(), np.errstate(all='ignore'):
+                    warnings.simplefilter('ignore')
+                    o = np.asarray(getattr(c, fn)(src, dtype=odt)).ravel()
+                mi = core.ints(drv[key + 'int'])
+                for k in range(len(mi)):
+                    if abs(m[k] - round(m[k])) <= 1e-6:
+                        skipped += 1
+                    elif int(o[k]) != mi[k]:
+                        f.append(dict(kind='model', key=f'{fn}:model-dtype-cast', detail=dict(index=k, got=int(o[k]), model=mi[k])))
+                        break
+    return dict(findings=f, nontrivial=bool(any(vals)), sig=('dtypes', json.dumps(case, sort_keys=True)), n=n,
+                tags=dict(kind='dtypes', dtype=case['dtype'], out=out or '-', near_integer_skipped=min(skipped, 1)))
+
+
 def _eval_ramp(case):
     """channel `ch` runs through `vals` (increasing); the other channels are fixed: every XYZ output and
     L* must be non-decreasing (a*, b* are differences and are not monotone)"""
@@ -526,6 +622,8 @@ def evaluate(cases):
             out.append(_eval_rgbimg(c))
         elif k == 'as_rgb':
             out.append(_eval_asrgb(c))
+        elif k == 'dtypes':
+            out.append(_eval_dtypes(c))
         else:
             raise core.Infra(f'unknown case kind {k}')
     return out
@@ -668,6 +766,15 @@ def cases(rng, tier):
         if rng.random() < 0.5:
             c['out'] = rng.choice(['uint8', 'int8', 'int16', 'int32', 'int64', 'float32', 'float64', 'float16'])
         out.append(c)
+    # dtype handling: every input dtype x every dtype= request (round-robin, so that each pair occurs in every tier)
+    nd = dict(quick=len(DT_IN) * (len(DT_OUT) + 1), thorough=8 * len(DT_IN) * (len(DT_OUT) + 1), search=300)[tier]
+    for i in range(nd):
+        m = rng.randint(2, 12)
+        tri = [255, 255, 255, 0, 0, 0, 200, 100, 50] + [rng.choice([rng.randint(0, 255), rng.randint(0, 15), 255]) for _ in range(3 * m)]
+        g = rng.randint(0, 255)
+        tri += [g, g, g]
+        out.append(dict(kind='dtypes', rgb=tri, dtype=DT_IN[i % len(DT_IN)],
+                        out=([None] + DT_OUT)[(i // len(DT_IN)) % (len(DT_OUT) + 1)]))
     ns = dict(quick=1500, thorough=15000, search=6000)[tier]
     for _ in range(ns):
         out.append(_stretch_case(rng))
